@@ -296,9 +296,9 @@ def fold_unit(X, method, own_range=False):
             # spec: IncompleteDataError iff some constituent raises it; the skolem index k is the raising element
             if len(folds) == 0 and ctx.counters.get('fold_k'):
                 k = z3.Int('fold_k')
-                check_outcome(I, out, raises={'IncompleteDataError': Raises[X](CorrAt(k), T), 'OutsideCorrelationError': outside})
+                check_outcome(I, out, raises={'IncompleteDataError': Raises[X](CorrAt(k), T), '*': outside})
             else:
-                check_outcome(I, out, raises={'OutsideCorrelationError': outside})
+                check_outcome(I, out, raises={'*': outside})
             # (C06 allows the error in every case; that the code prefers the warning when a constituent has no heat-capacity data is its choice, not an obligation)
             return {'inputs': {}}
         r = out.value
